@@ -10,7 +10,7 @@ Theorem last_julian_date_ok c : ValidCal c ->
 Proof.
   intros V. destruct c as [| |r]; try reflexivity.
   cbn [ValidCal] in V. destruct (gap_info r V) as (py & pm & pd & qy & qm & qd & GI).
-  unfold Calendar_last_julian_date. change (Calendar_f_0 (cal_of (CR r))) with (inner_Calendar_Reforming r (gap_of r)). cbv iota beta.
+  unfold Calendar_last_julian_date. autounfold with gen_new. change (Calendar_f_0 (cal_of (CR r))) with (inner_Calendar_Reforming r (gap_of r)). cbv iota beta zeta.
   rewrite i32_sub_ok by (unfold ValidR in V; range). cbn [bind].
   rewrite (gap_of_eq _ _ _ _ _ _ _ GI). unfold the_gap.
   cbn [inner_ReformGap_f_pre_reform inner_Date_f_year inner_Date_f_ordinal inner_Date_f_month inner_Date_f_day].
@@ -25,7 +25,7 @@ Theorem first_gregorian_date_ok c : ValidCal c ->
 Proof.
   intros V. destruct c as [| |r]; try reflexivity.
   cbn [ValidCal] in V. destruct (gap_info r V) as (py & pm & pd & qy & qm & qd & GI).
-  unfold Calendar_first_gregorian_date. change (Calendar_f_0 (cal_of (CR r))) with (inner_Calendar_Reforming r (gap_of r)). cbv iota beta zeta.
+  unfold Calendar_first_gregorian_date. autounfold with gen_new. change (Calendar_f_0 (cal_of (CR r))) with (inner_Calendar_Reforming r (gap_of r)). cbv iota beta zeta.
   pose proof (gi_pre _ _ _ _ _ _ _ GI) as EP. pose proof (gi_post _ _ _ _ _ _ _ GI) as EQ.
   assert (QY : gyear r = qy) by (unfold glabel in EQ; destruct (md_of _ _); inversion EQ; reflexivity).
   pose proof (g_rp _ _ _ _ _ _ _ GI) as [RP PD]. pose proof (g_rq _ _ _ _ _ _ _ GI) as [RQ QD].
